@@ -169,7 +169,7 @@ def cfg_case(draw):
             else:
                 label, v = draw(st.sampled_from([c for c in specs.catalogue(T2, 'drv') if c[1] is not None and c[1] == c[1]]))
             # the start value is given as 'value', or (Param(default=...)) as a default which is applied but not written
-            entry['default' if how == 'param-value' and not p.get('needscfg') and draw(st.integers(0, 3)) == 0 else 'value'] = v
+            entry['default' if how == 'param-value' and not p.get('needscfg') and draw(st.integers(0, 1)) == 0 else 'value'] = v
         elif p.get('needscfg'):
             errors.append({'kind': 'needscfg', 'needle': p['name']})
         items = list(entry.items()) + list(props.items())
